@@ -84,6 +84,7 @@ def run(prog, chk):
     infinite_iterators(prog, chk, reach)
     retry_amplification(prog, chk)
     retry_novelty(prog, chk)
+    retry_baseline_after_attempt(prog, chk)
     from props import C17
     C17.scope_var_limit(prog, chk)  # unbounded growth of scope variables is memory exhaustion (abort)
     C17.limits_wiring(prog, chk)  # the limits the termination argument rests on are the ones the front-ends configure
@@ -462,6 +463,38 @@ def retry_novelty(prog, chk):
         )
     if not setters:
         chk.ok("A4.retry-amplification", "process_tags:novelty", b.where(), "no plain success counter feeds the retry decision")
+
+
+def retry_baseline_after_attempt(prog, chk):
+    """the progress that licenses a retry is measured from *after* the failed attempt: a baseline read before the
+    attempt counts what the failing container resolved inside itself as progress, so every nesting level retries its
+    failing child (2^N).  Every read of a context progress getter inside the per-tag loop of process_tags is dominated by
+    the generate_events call of that tag."""
+    b = prog.body("svgdx::transform::process_tags")
+    chk.touch(b)
+    CTX = "svgdx::context::TransformerContext::"
+    gens = b.call_sites(lambda c: c.decl_path == "svgdx::transform::EventGen::generate_events")
+    if not gens:
+        chk.anchor_missing("A4.retry-amplification", "process_tags: generate_events call not found")
+        return
+    gb = gens[0][0]
+    inner = R.loop_containing(b, gb)
+    n = 0
+    early = []
+    for (bb, t, c) in b.call_sites(lambda c: c.path.startswith(CTX)):
+        gbody = prog.maybe_body(c.path)
+        if gbody is None or len(t["args"]) != 1 or inner is None or bb not in inner[1]:
+            continue
+        # a getter: returns a field of the context
+        rets = [st for _, _, st in gbody.all_stmts() if st.get("lhs") and st["lhs"][0] == 0 and (st.get("rv") or {}).get("k") == "use"]
+        if not rets or any(tt["k"] == "switch" for tt in (gbody.term(x) for x in gbody.reachable)):
+            continue
+        if "usize" not in (t.get("dty") or b.local_ty(t["dest"][0]) or ""):
+            continue
+        n += 1
+        if not b.dominates(gens[0][1]["t"], bb):
+            early.append(b.where(bb, t.get("line")))
+    chk.ob(n > 0 and not early, "A4.retry-amplification", "process_tags:baseline-after-attempt", b.where(gb), "inside the per-tag loop the progress measure is read only after the tag has been attempted", f"process_tags reads the progress measure before attempting the tag ({', '.join(early) or 'no read found in the loop'}): what a failing container resolved inside itself then counts as progress since its failure, every level retries its failing child, and an unresolvable reference N levels deep is evaluated 2^N times")
 
 
 def iterator_driven_header(body, h, blocks):
